@@ -16,6 +16,7 @@ fn main() {
     let only: Option<u64> = args.get(4).and_then(|s| s.parse().ok());
     let mut out = Trace::create(&args[3]);
     hv_dfir::rt::start_watchdog(30_000);
+    hv_dfir::rt::install_tick_guard();
     let mut nprog = 0usize;
     let mut nhist = 0usize;
     let mut nsteps = 0usize;
